@@ -21,7 +21,7 @@ CHECKS = {
   ref="3/C12"),
  "C13": dict(
   text="Bounded symbolic model checking of refine_hmmscan_results (both modes) with its helpers, of filter_results / filter_result_multiple and of hmmer.remove_overlapping on k <= 3 (quick) / 4 (thorough) hits with symbolic coordinates (ints) and scores / e-values (reals), every profile assignment over 2-3 profiles, every input order and every set-iteration numbering: results ordered by position, identical for every order, kept hits are inputs or spanning same-profile merges with best score, no two kept hits overlap beyond the margin, dropped hits have a better-ranked overlapping kept hit, one survivor per overlap group / profile.",
-  note="Profile lengths 15/35 and cutoffs 20/30 are concrete; set iteration order is modelled as harness-chosen (every order supplied); doubles that are nearest to simple fractions are read as those fractions (DESIGN 1.4). In `refine` the result must additionally equal an independent transcription of the documented rules (one-domain span < 1.5 profile lengths, overlap margin 20% of the longer profile, half / third completeness) executed on the same symbolic hits. Known finding C13-1 (greedy comparison against the last kept hit only) is reported as KNOWN-FINDING, anything outside its region is a violation.",
+  note="Profile lengths 15/35 and cutoffs 20/30 are concrete; set iteration order is modelled as harness-chosen (every order supplied); doubles that are nearest to simple fractions are read as those fractions (DESIGN 1.4). In `refine` the result must additionally equal an independent transcription of the documented rules (one-domain span < 1.5 profile lengths, overlap margin 20% of the longer profile, half / third completeness) executed on the same symbolic hits. For refine_hmmscan_results the sentence 'dropped only if a better-ranked overlapping hit is kept ...' is not claimed at property level (normal mode keeps one run per profile by design; see DESIGN section 2). Known finding C13-1 (greedy comparison against the last kept hit only) is reported as KNOWN-FINDING, anything outside its region is a violation.",
   ref="3/C13"),
  "C14": dict(
   text="Bounded symbolic model checking of build_modules_for_cds / Module.add_component / ensure_suitable / is_complete / to_json+from_json and combine_modules with every domain NAME symbolic over the full alphabet of CLASSIFICATIONS (~70 names; membership tests on the re-wrapped constant sets are decided by the solver, so paths are behaviour classes) and symbolic KS subtype: sequences of length <= 3 (quick, plus length-4 sequences starting with two carrier proteins) / 4 (thorough); construction never fails, domains partitioned in order without loss, every documented layout rule per module, is_complete iff documented, module rebuilt from its saved form identical; adjacent gene pairs: merge only on the same strand, only of an incomplete trailing module, only if the result is complete, all domains kept in order.",
